@@ -22,11 +22,16 @@ Definition failing {X} (f : X -> bool) (l : list X) : list nat :=
 
 (* what was observed for one string: trainer, scorer (None = scorer not loaded),
    guesser level as far as the enumeration decided it (None = undecided) *)
+Inductive gobs :=
+| GHit (l : nat)        (* MarkovCracker emitted the string at target level l *)
+| GNotUpto (l : nat)    (* levels 0..l were enumerated completely, the string is in none *)
+| GUnknown.
+
 Record sobs := mk_sobs {
   so_str : ostr;
   so_trainer : option nat;
   so_scorer : option (option nat);
-  so_guesser : option (option nat)
+  so_guesser : gobs
 }.
 
 Record c11case := mk_c11case {
@@ -45,9 +50,10 @@ Definition check_string (T : ttab) (Sc : scorer) (G : option omen) (o : sobs) : 
   olevel_eqb (trainer_level T (so_str o)) (so_trainer o) &&
   match so_scorer o with Some v => olevel_eqb (scorer_level Sc (so_str o)) v | None => true end &&
   match so_guesser o, G with
-  | Some v, Some g => olevel_eqb (level_of g (so_str o)) v
-  | Some _, None => false
-  | None, _ => true
+  | GHit l, Some g => olevel_eqb (level_of g (so_str o)) (Some l)
+  | GNotUpto l, Some g => match level_of g (so_str o) with Some l' => Nat.ltb l l' | None => true end
+  | GUnknown, _ => true
+  | _, None => false
   end.
 
 Definition check_counts (T : ttab) (pws : list ostr) (obs : list (option nat * nat)) : bool :=
